@@ -66,6 +66,10 @@ func VerifC01RoundTrip() {
 	cls := vChoice("cls", 3)
 	ntypes := 1 + vChoice("ntypes", vBound("c01.maxtypes", 2))
 	p := vSmallProfile("", cls, ntypes)
+	if vChoice("unnamedtype", 2) == 1 {
+		// a value column without type and unit strings (an all-default nested message)
+		p.SampleType[ntypes-1].Type, p.SampleType[ntypes-1].Unit = "", ""
+	}
 	// labels: a string label with two values (one empty: dropped by proto3), a
 	// numeric label with/without units
 	p.Sample[0].Label = map[string][]string{"k": {"v1", "v2"}, "e": {""}}
@@ -93,6 +97,10 @@ func VerifC01RoundTrip() {
 		return
 	}
 	data := buf.Bytes()
+	// serializing the same in-memory profile again (what Copy and repeated writes do) gives the same bytes
+	var again bytes.Buffer
+	p.WriteUncompressed(&again)
+	vAssert(bytes.Equal(data, again.Bytes()), "C01.rt.rewrite: writing the same profile twice gives different bytes")
 	q, err := ParseUncompressed(data)
 	vReach("C01.rt:parsed")
 	if err != nil {
